@@ -95,6 +95,7 @@ type State struct {
 	reachSeen map[string]bool
 	pinned    map[int]uint64
 	btrace    []string
+	files     map[string]bool // names of existing files (copy-on-write)
 	axiomIDs  map[int]bool // pc entries that are hash-model axioms (not evaluated when validating a lifted stream)
 }
 
@@ -410,4 +411,26 @@ func (ex *Exec) tryMerge(c *Term, a, b Value) (v Value, ok bool) {
 		}
 	}()
 	return ex.mergeVal(c, a, b), true
+}
+
+func (s *State) touchFile(p string) {
+	n := make(map[string]bool, len(s.files)+1)
+	for k, v := range s.files {
+		n[k] = v
+	}
+	n[p] = true
+	s.files = n
+}
+
+func (s *State) removeFile(p string) {
+	if !s.files[p] {
+		return
+	}
+	n := make(map[string]bool, len(s.files))
+	for k, v := range s.files {
+		if k != p {
+			n[k] = v
+		}
+	}
+	s.files = n
 }
